@@ -615,6 +615,9 @@ func (l *Gpos2_2) encode() []byte {
 	total += l.Class1.AppendLen()
 	classDef2Offset := total
 	total += l.Class2.AppendLen()
+	if classDef2Offset > 0xFFFF {
+		panic("class definition offset overflow")
+	}
 
 	res := make([]byte, 0, total)
 	res = append(res,
